@@ -17,6 +17,7 @@ from fractions import Fraction
 
 from lib import common as C
 from lib import fpq
+from lib import pushloop
 
 NOW = 1790000000000000000          # 2026-09-21, the injected store clock
 MAXI = (1 << 63) - 1
@@ -883,8 +884,23 @@ def main(ctx, replay):
     except (OSError, ValueError, KeyError) as e:
         ctx.notes.append("dispatcher start scenarios skipped: %r" % (e,))
     tick("start")
+    # ---- the store calls of the real runRoute per micro-batch (batched and single lease mutations, unknown targets, Drain while a
+    #      delivery is in flight): judged by the property and compared with Model/PushLoop.v run_items
+    lres = None
+    try:
+        def loop_report(key, msg, detail):
+            C.report(ctx, key, msg, detail)
+        lstats, lres = pushloop.run(ctx, H, rng, ctx.tier, model_ok, loop_report)
+        dist["micro_batch_runs"] = lstats
+        evaluations += lstats["items"]
+        mism += lstats["model_mismatches"]
+        for k, v in lstats["item_kinds"].items():
+            nontrivial.add(("microbatch", k, v))
+    except (OSError, ValueError, KeyError) as e:
+        ctx.notes.append("micro-batch scenarios skipped: %r" % (e,))
+    tick("micro-batch")
     dist["timing_s"] = timing
-    model_evaluated = all(x is not None for x in (mres, fres, qres, cres, m_ttl, m_bat))
+    model_evaluated = all(x is not None for x in (mres, fres, qres, cres, m_ttl, m_bat, lres))
     cov.update({
         "evaluations": evaluations,
         "distinct_nontrivial": len(nontrivial),
